@@ -30,12 +30,12 @@ fn permutations(n: usize) -> Vec<Vec<usize>> {
     let mut out = vec![]; rec(&mut vec![], &mut vec![false; n], n, &mut out); out
 }
 
-#[cfg(feature = "full")]
+#[cfg(feature = "par")]
 fn load_in_pool(bytes: &[u8], threads: usize) -> Result<String, String> {
     let pool = rayon::ThreadPoolBuilder::new().num_threads(threads).build().map_err(|e| e.to_string())?;
     pool.install(|| load_with_order(bytes, None))
 }
-#[cfg(not(feature = "full"))]
+#[cfg(not(feature = "par"))]
 fn load_in_pool(bytes: &[u8], _threads: usize) -> Result<String, String> { load_with_order(bytes, None) }
 
 pub fn run(c: &mut Ctx) {
@@ -114,7 +114,7 @@ run in the no-default-features (sequential) build. Non-trivial = file with >= 2 
     }
     c.extra.insert("permutations_run".into(), json!(perms_run));
     c.extra.insert("pool_loads".into(), json!(pool_loads));
-    c.extra.insert("build".into(), json!(if cfg!(feature = "full") { "rayon" } else { "sequential" }));
+    c.extra.insert("build".into(), json!(if cfg!(feature = "par") { "rayon" } else { "sequential" }));
     for (k, v) in counters { c.count_n(&format!("choice.{}", k), v); }
     let _ = Rng::new(0);
 }
